@@ -189,6 +189,8 @@ func (s *StarMedoidGrouping) GroupClones(pairs []*ClonePair) []*CloneGroup {
 		return fragmentLess(result[i].Fragments[0], result[j].Fragments[0])
 	})
 
+	renumberGroups(result)
+
 	return result
 }
 
